@@ -182,6 +182,10 @@ func classify(ref *funcRef) string {
 		return "listmarshal"
 	case name == "_fieldMiddleware":
 		return "fieldmiddleware"
+	case strings.HasPrefix(name, "unmarshalInput"):
+		return "unmarshalinput"
+	case strings.HasPrefix(name, "field_") && strings.HasSuffix(name, "_args"):
+		return "fieldargs"
 	}
 	return ""
 }
